@@ -7,6 +7,11 @@ LEVELS={
  "C12":("model_checking","Bounded symbolic execution of tiff.ScanTiffHeader over the real bufio.Reader: every prefix of 0..9 (thorough 0..12) arbitrary bytes before the first signature, all header contents; every signature-free stream up to 34/37 bytes. Outside the bound nothing is claimed.","8 C12","bounded symbolic execution of go/ssa + z3"),
  "C16":("model_checking","Each value type's value is a full-width solver variable (or is case-split exhaustively where integer formatting divides by constants); round-trip equalities, Msgsize bound and totality of every text/binary/MessagePack decoder on arbitrary byte strings up to 48/64 bytes are decided by z3. Decimal float text round trips are outside the claim (strconv float routines uninterpreted).","8 C16","symbolic execution of go/ssa + z3; exhaustive case split for ExposureBias"),
  "C17":("proof","Every value of each enumeration's underlying integer type is a solver variable; the stringer's SSA (index tables, maps, switches) is executed symbolically; run-time checks must be unsatisfiable and the result must equal the independently documented name / fallback. Finite domains are covered completely.","8 C17","symbolic execution of go/ssa + z3 over the whole integer domain"),
+ "C03":("model_checking","Forward-layout Exif skeletons (concrete structure) with every field value a full-width solver variable are decoded symbolically through the real reader; each reported field is compared with an independently written Exif/TIFF spec expression; unsat = exact for every value inside the skeleton family.","8 C03","skeleton-based symbolic execution of go/ssa + z3"),
+ "C07":("model_checking","Entry-decoder lemma over all 2^96 IFD entries (II bytes vs field-wise byte-swapped MM twin) plus paired II/MM end-to-end decodes of one-entry skeletons with symbolic values.","8 C07","relational symbolic execution (II vs MM) + z3"),
+ "C08":("model_checking","Self-composition: the same symbolic stream is decoded through a full-delivery reader and through a reader whose first three reads deliver an arbitrary legal count; results must be equal. Only the entry points that call Read directly are covered; the bufio-based ones rely on bufio's contract (assumed).","8 C08","relational symbolic execution (full vs chunked reads) + z3"),
+ "C10":("model_checking","JPEG marker sequences with concrete layout and arbitrary payload bytes are scanned symbolically over the real bufio/LimitedReader; callback arguments, bytes readable inside the callbacks and resumption offsets are compared with the harness's own layout arithmetic.","8 C10","skeleton-based symbolic execution of go/ssa + z3"),
+ "C11":("model_checking","One-step lemmas for every box operation from an arbitrary (not necessarily consistent) chain of nested boxes with the argument over the whole int range, plus framing/payload obligations on CR3 box trees with arbitrary payload bytes.","8 C11","inductive-step symbolic execution of go/ssa + z3"),
 }
 NOTE="Trusted base: go/ssa (x/tools v0.29.0), z3 4.8.12, the gosmt symbolic machine and its environment models (DESIGN.md section 5: stream model, sync.Pool, zerolog, opaque errors/fmt, uninterpreted time/float routines). Every reported violation is first replayed natively through `go test -overlay` on the real code; sampled path models are replayed too (traces_validated_against_impl)."
 NA={
